@@ -6,6 +6,11 @@ pub trait Monitor {
     /// human-readable reconstruction of the case (used for replay / crash attribution)
     fn describe(&mut self, idx: u64) -> String;
     fn finish(&mut self, _obs: &mut Obs) {}
+    /// the interpreter every case starts from, for monitors whose property does not depend on reverse-step recording:
+    /// the worker switches recording on for half of the cases (the same words then run through the logging code paths)
+    fn boot_mut(&mut self) -> Option<&mut xeh::prelude::Xstate> {
+        None
+    }
 }
 
 pub mod c01;
